@@ -24,6 +24,7 @@ From SV Require Import Bytes Lexer Tables ArgCheck ArgSpec Machine Printer GenTa
 Import ListNotations.
 Local Open Scope nat_scope.
 From SV Require Import PositionFacts TotalFacts RegisterFacts.
+From SV Require Import LexRules.
 
 (* one parser step from a state satisfying the invariant never crashes and re-establishes the invariant *)
 Theorem C02_step :
@@ -110,4 +111,8 @@ Example C02_former_crashers :
        bs "keep (true);"; bs "if ( anyof ( true ) ) { }"; bs "if anyof ( header ) ) )"; bs "stop ( ) ;";
        bs "if true { if true { } else [ { } } }"]
   = [2; 1; 2; 2; 2; 2; 2; 2; 2].
+Proof. vm_compute. reflexivity. Qed.
+
+(* Parser.lrules of the working tree are the regular expressions the scanners of sieve/Lexer.v were translated from *)
+Example C02_lexer_rules : gen_lrules = expected_lrules.
 Proof. vm_compute. reflexivity. Qed.
